@@ -73,7 +73,11 @@ def close(a, b, tol):
 
 
 def one_dataset(obs, rng, conv, spec, workdir=None):
-    model = make_dressed(rng, conv, dress=dict(per_kind=(1, 2), nongrid=1))
+    kw = {}
+    if conv == 'shoc_standard' and rng.random() < 0.3:
+        kw['transpose_face_lon'] = True
+        obs.cls('shoc_standard:face-longitude-stored-transposed')
+    model = make_dressed(rng, conv, dress=dict(per_kind=(1, 2), nongrid=1), **kw)
     ds, source = model.materialise(rng, workdir)
     obs.cls('source:' + source)
     spec['source'] = source
